@@ -118,11 +118,6 @@ func main() {
 		}
 	}
 
-	for _, c := range []string{"accept", "accept-batch2", "dup-noop", "orphan-reject", "batch-atomic-reject", "invalid-header-ignored",
-		"extend-head", "reorg-same-height", "reorg-to-longer", "reorg-to-shorter", "tie-head-kept", "longer-but-lighter-kept", "side-lighter-kept"} {
-		r.Require("eth:"+c, "btc:"+c)
-	}
-
 	var mu sync.Mutex
 	tot := map[string]*treeStats{}
 	trees := map[string]int{}
@@ -173,6 +168,13 @@ func main() {
 	close(ch)
 	wg.Wait()
 
+	// vacuity guard (only meaningful when nothing was flagged: a broken fork choice also removes outcome classes)
+	if r.NViolations() == 0 {
+		for _, c := range []string{"accept", "accept-batch2", "dup-noop", "orphan-reject", "batch-atomic-reject", "invalid-header-ignored",
+			"extend-head", "reorg-same-height", "reorg-to-longer", "reorg-to-shorter", "tie-observed", "longer-but-lighter-kept", "side-lighter-kept"} {
+			r.Require("eth:"+c, "btc:"+c)
+		}
+	}
 	fam := map[string]any{}
 	for k, v := range tot {
 		fam[k] = map[string]int{"trees": trees[k], "states": v.states, "transitions": v.trans}
